@@ -100,31 +100,34 @@ theorem parseTable_of {b : Buf} {h : Hdr} {pc : Nat} {ps : Parsed}
     parseTable b = some ps := by
   simp only [parseTable, h0, if_false, h1, h2, h3, h4]
 
-/-- (5) parsing an encoded table gives exactly what the encoder was given -/
-theorem parseTable_enc (l : Layout) (t : Table) (hwf : wfTable l t = true) :
-    parseTable (encTable l t).toArray = some (parsedOf l t) := by
+/-- (5) parsing an encoded table, followed by any trailing bytes `tr` (which the parser never
+    looks at), gives exactly what the encoder was given -/
+theorem parseTable_enc_trailing (l : Layout) (t : Table) (tr : List Nat) (hwf : wfTable l t = true)
+    (htr : (encTable l t).length + tr.length < 4294967296) :
+    parseTable (encTable l t ++ tr).toArray = some (parsedOf l t) := by
   simp only [wfTable, Bool.and_eq_true, decide_eq_true_eq] at hwf
   obtain ⟨⟨hlen, hstr⟩, hpk⟩ := hwf
-  generalize hbs : encTable l t = bs at *
   have hge := encPackages_length_ge l.pkg 0 t.packages hpk
   have hpg := encPool_length_ge l.globalUtf8 t.strings
-  have h0 : bs.drop 0 = chunk 2 (enc32 t.packages.length)
-      (encPool l.globalUtf8 t.strings ++ encPackages l.pkg 0 t.packages) ++ [] := by
-    rw [← hbs]; simp [encTable]
-  have hL : bs.length = 12 + (encPool l.globalUtf8 t.strings).length + (encPackages l.pkg 0 t.packages).length := by
-    rw [← hbs]
+  have hL0 : (encTable l t).length = 12 + (encPool l.globalUtf8 t.strings).length + (encPackages l.pkg 0 t.packages).length := by
     simp only [encTable, chunk_length, List.length_append, enc32_length]; omega
+  generalize hbs : encTable l t ++ tr = bs at *
+  have h0 : bs.drop 0 = chunk 2 (enc32 t.packages.length)
+      (encPool l.globalUtf8 t.strings ++ encPackages l.pkg 0 t.packages) ++ tr := by
+    rw [← hbs]; simp [encTable]
+  have hL : bs.length = 12 + (encPool l.globalUtf8 t.strings).length + (encPackages l.pkg 0 t.packages).length + tr.length := by
+    rw [← hbs, List.length_append, hL0]
   have hhdr := readHdr_at (some resTableType) h0 (Or.inl (by omega))
     (by simp only [enc32_length]; omega)
     (by simp only [enc32_length, List.length_append]; omega)
     (by intro x hx; simp only [resTableType] at hx; injection hx with hx; exact hx.symm)
   simp only [enc32_length, List.length_append] at hhdr
   have a8 : bs.drop (0 + 8) = enc32 t.packages.length ++ (encPool l.globalUtf8 t.strings ++
-      (encPackages l.pkg 0 t.packages ++ [])) := by
+      (encPackages l.pkg 0 t.packages ++ tr)) := by
     rw [chunk_body_at h0]; simp only [List.append_assoc]
-  have a12 : bs.drop 12 = encPool l.globalUtf8 t.strings ++ (encPackages l.pkg 0 t.packages ++ []) :=
+  have a12 : bs.drop 12 = encPool l.globalUtf8 t.strings ++ (encPackages l.pkg 0 t.packages ++ tr) :=
     drop_at' 4 a8 (enc32_length _)
-  have apk : bs.drop (12 + (encPool l.globalUtf8 t.strings).length) = encPackages l.pkg 0 t.packages ++ [] :=
+  have apk : bs.drop (12 + (encPool l.globalUtf8 t.strings).length) = encPackages l.pkg 0 t.packages ++ tr :=
     drop_at a12
   obtain ⟨_, p2, p3⟩ := readPool_at l.globalUtf8 t.strings a12 (by omega)
   have hloop := tableChunks_pkgs l.pkg t.packages 0 (12 + (encPool l.globalUtf8 t.strings).length)
@@ -144,5 +147,13 @@ theorem parseTable_enc (l : Layout) (t : Table) (hwf : wfTable l t = true) :
       = 12 + (encPool l.globalUtf8 t.strings).length + (encPackages l.pkg 0 t.packages).length by omega]
     rw [hloop]
     simp [parsedOf]
+
+/-- (5) parsing an encoded table gives exactly what the encoder was given -/
+theorem parseTable_enc (l : Layout) (t : Table) (hwf : wfTable l t = true) :
+    parseTable (encTable l t).toArray = some (parsedOf l t) := by
+  have hlen : (encTable l t).length < 4294967296 := by
+    simp only [wfTable, Bool.and_eq_true, decide_eq_true_eq] at hwf; exact hwf.1.1
+  have := parseTable_enc_trailing l t [] hwf (by simpa using hlen)
+  simpa using this
 
 end AgVerif.Arsc
